@@ -539,6 +539,11 @@ func init() {
 				ad = 5
 			}
 			sp = append(sp, c02AnalysedSpace(ad))
+			bd := 1
+			if tier == "thorough" {
+				bd = 2
+			}
+			sp = append(sp, c02HandlerBatchSpace(c02Docs(bd)))
 			return sp
 		},
 	})
